@@ -23,6 +23,32 @@ func VerifHarness_C09_ICC_TagTable() {
 	verifReach("returned")
 }
 
+// VerifHarness_C09_ICC_SharedTags: a valid header and a table of 100 distinctly named tags
+// that all declare the same 3000-byte element (sharing tag data is legal in ICC): memory
+// must stay linear in the profile size, not tags x element size. A few bytes symbolic.
+func VerifHarness_C09_ICC_SharedTags() {
+	const tags, elem = 100, 3000
+	h := verifBytes(128)
+	verifAssume(verifBE32(h, 36) == 0x61637370)
+	in := append([]byte{}, h...)
+	in = append(in, 0, 0, 0, tags)
+	off := 128 + 4 + 12*tags
+	for i := 0; i < tags; i++ {
+		in = append(in, 't', 'g', byte('a'+i/26), byte('a'+i%26))
+		in = append(in, byte(off>>24), byte(off>>16), byte(off>>8), byte(off))
+		in = append(in, 0, 0, byte(elem>>8), byte(elem&0xff))
+	}
+	body := make([]byte, elem)
+	copy(body, verifBytes(8))
+	in = append(in, body...)
+	verifHostileBudget(len(in))
+	p, err := NewProfileReader(bytes.NewReader(in)).ReadProfile()
+	if err == nil && p != nil {
+		_, _ = p.Description()
+	}
+	verifReach("returned")
+}
+
 // VerifHarness_C09_ICC_Arbitrary: N arbitrary bytes given to the profile reader.
 func VerifHarness_C09_ICC_Arbitrary() {
 	in := verifBytes(verifC09N)
@@ -41,7 +67,7 @@ func VerifHarness_C09_ICC_Desc() {
 	var data []byte
 	which := verifC09Case
 	if which < 0 {
-		which = verifChoice(6)
+		which = verifChoice(7)
 	}
 	switch which {
 	case 0:
@@ -86,6 +112,23 @@ func VerifHarness_C09_ICC_Desc() {
 		data = append(data, "enUS"...)
 		data = append(data, 0, 0, 0, 2, 0, 0, 0, 28)
 		data = append(data, 0, 65)
+	case 5:
+		// mluc, many records (distinct locales) that all declare the same large string:
+		// sharing is legal in ICC; the work and memory must stay linear in the tag size
+		const recs, strLen = 40, 3000
+		data = append([]byte("mluc"), 0, 0, 0, 0)
+		data = append(data, 0, 0, 0, recs, 0, 0, 0, 12)
+		off := 16 + 12*recs
+		for i := 0; i < recs; i++ {
+			data = append(data, byte('a'+i%26), byte('a'+i/26), 'X', 'Y')
+			data = append(data, 0, 0, byte(strLen>>8), byte(strLen&0xff))
+			data = append(data, 0, 0, byte(off>>8), byte(off&0xff))
+		}
+		tail := verifBytes(2)
+		for i := 0; i < strLen/2; i++ {
+			data = append(data, 0, 'x')
+		}
+		data[len(data)-1] = 'a' + tail[1]&7 // one symbolic ASCII code unit
 	default:
 		data = verifBytes(verifChoice(10))
 	}
